@@ -147,9 +147,11 @@ func (x *c16nsWorld) create(op c16nsOp, solo bool) {
 	ck := w.App(0).IBCKeeper.ClientKeeper
 	if op.Jump {
 		cur := ck.GetNextClientSequence(w.Ctx(0))
-		nxt := cur * 10
-		if cur == 0 {
-			nxt = 1
+		// last id was cur-1: continue at 10x that number (1 -> 10 -> 100 ...) so that earlier ids
+		// are proper prefixes of later ones
+		nxt := uint64(1)
+		if cur >= 2 {
+			nxt = (cur - 1) * 10
 		}
 		if nxt > cur && nxt < 1<<40 {
 			ck.SetNextClientSequence(w.Ctx(0), nxt) // harness action (like an imported genesis), outside the judged window
@@ -222,8 +224,9 @@ func (x *c16nsWorld) misbehave(target string) bool {
 	var mb *ibctm.Misbehaviour
 	sim.Guard("forge misbehaviour", func() {
 		mb = &ibctm.Misbehaviour{
-			Header1: cp.CreateTMClientHeader(cp.ChainID, cp.ProposedHeader.Height+3, trusted, cp.ProposedHeader.Time, cp.Vals, cp.NextVals, tv, cp.Signers),
-			Header2: cp.CreateTMClientHeader(cp.ChainID, cp.ProposedHeader.Height, trusted, cp.ProposedHeader.Time, cp.Vals, cp.NextVals, tv, cp.Signers),
+			ClientId: target,
+			Header1:  cp.CreateTMClientHeader(cp.ChainID, cp.ProposedHeader.Height+3, trusted, cp.ProposedHeader.Time, cp.Vals, cp.NextVals, tv, cp.Signers),
+			Header2:  cp.CreateTMClientHeader(cp.ChainID, cp.ProposedHeader.Height, trusted, cp.ProposedHeader.Time, cp.Vals, cp.NextVals, tv, cp.Signers),
 		}
 	})
 	msg, err := clienttypes.NewMsgUpdateClient(target, mb, w.Addr(0, 0).String())
